@@ -43,6 +43,9 @@ Parsed == /\ Live("parsed") /\ UNCHANGED stats
                             <<"RoundTripMessage", st.some => st.msg = s.stim.msg>>,
                             <<"RoundTripDetails", st.some => st.details = s.stim.details>>,
                             <<"RoundTripMetadata", st.some => MetadataReceived(st.meta, meta)>>,
+                            \* "yields an equal status": nothing but the sender's own entries comes back (no transport is involved here),
+                            \* in particular none of the three status headers reappears as custom metadata
+                            <<"RoundTripNoForeignMetadata", st.some => \A i \in 1..Len(st.meta) : st.meta[i].n \in (MetaNames(meta) \ StatusNames)>>,
                             <<"Order", "hdrs" \in s.seen>> >>, [s EXCEPT !.seen = @ \cup {"parsed"}])
              ELSE JudgeK(ParseClauses(s.list, E.st) \o << <<"Order", "input" \in s.seen>> >>, [s EXCEPT !.seen = @ \cup {"parsed"}])
 Http == /\ Live("http") /\ UNCHANGED stats
